@@ -735,6 +735,66 @@ func (e *SpecEnv) callExpr(n *Node) *SVal {
 		s2 := e.sum([]*Node{args[0], args[1], args[2], args[4]})
 		pw := e.quant("forall", []*Node{args[0], args[1], args[2], {Op: "==", Args: []*Node{args[3], args[4]}}})
 		return boolVal(sImp(pw.Term, sEq(s1.Term, s2.Term)))
+	case "nth":
+		// nth(tuple, i): component of a multi-result value
+		need(2)
+		v := e.force(e.eval(args[0]))
+		if args[1].Op != "int" || v.F == nil {
+			sfail("nth(tuple, literal index)")
+		}
+		var i int
+		fmt.Sscan(args[1].Name, &i)
+		if i < 0 || i >= len(v.F) {
+			sfail("nth: index out of range")
+		}
+		r := v.F[i]
+		if r.T == nil {
+			if tp, ok := v.T.(*types.Tuple); ok {
+				r.T = tp.At(i).Type()
+			}
+		}
+		return r
+	case "unchanged":
+		// unchanged(e): the object e (a map, a slice's elements, or the struct a pointer
+		// refers to), located in the pre-state, has the same contents now
+		need(1)
+		o := *e
+		o.heap = e.old
+		v := o.force(o.eval(args[0]))
+		var cs []string
+		same := func(name, srt, cell string) {
+			a := sSelect(x.heapGet(e.old, name, srt), cell)
+			b := sSelect(x.heapGet(e.heap, name, srt), cell)
+			cs = append(cs, sEq(a, b))
+		}
+		switch kindOf(v.T) {
+		case KMap:
+			mh := fr.mapInfo(v.T)
+			same(mh.dom, mh.domS, v.Term)
+			same(mh.ln, "(Array Int Int)", v.Term)
+			for _, l := range mh.valLeaves {
+				same(mh.valHeapName(l), mh.valSort(l), v.Term)
+			}
+		case KSlice:
+			for _, eh := range elemHeaps(elemType(v.T)) {
+				same(eh.name, eh.sort, v.F[0].Term)
+			}
+		case KPtr:
+			loc := v.Loc
+			if loc == nil {
+				pt, ok := v.T.Underlying().(*types.Pointer)
+				if !ok {
+					sfail("unchanged: bad pointer")
+				}
+				loc = &Loc{Kind: LRef, Base: v.Term, Root: pt.Elem(), T: pt.Elem()}
+			}
+			cur := fr.readLocIn(e.heap, loc)
+			old := fr.readLocIn(e.old, loc)
+			cs = append(cs, e.equal(cur, old))
+		default:
+			sfail("unchanged(%s): expected a map, slice or pointer", args[0])
+		}
+		return boolVal(sAnd(cs...))
 	case "sameslice":
 		need(2)
 		a := e.force(e.eval(args[0]))
